@@ -21,11 +21,17 @@
 package main
 
 import (
+	"bufio"
 	"bytes"
+	"compress/gzip"
 	"encoding/hex"
+	"encoding/json"
 	"fmt"
 	"io"
 	"net"
+	"os"
+	"os/exec"
+	"path/filepath"
 	"reflect"
 	"runtime"
 	"runtime/debug"
@@ -99,7 +105,7 @@ func isHost(h string) bool {
 	return true
 }
 
-var opArity = map[string]int{"vb": 2, "lo": 2, "wi": 3, "in": 0, "rs": 1, "to": 1, "ba": 0, "bq": 0, "sh": 2, "bu": 0, "er": 1, "ob": 0}
+var opArity = map[string]int{"vb": 2, "lo": 2, "wi": 3, "in": 0, "rs": 1, "to": 1, "ba": 0, "bq": 0, "sh": 2, "bu": 0, "er": 1, "ob": 0, "sf": 2}
 
 func (a action) valid() bool {
 	n, ok := opArity[a.op]
@@ -120,8 +126,77 @@ func (a action) valid() bool {
 		return a.args[0] == "400" || a.args[0] == "403" || a.args[0] == "404" || a.args[0] == "500" || a.args[0] == "503"
 	case "to":
 		return isPath(a.args[0])
+	case "sf":
+		_, ok := sendFileConfig(a.args[0])
+		return ok && (a.args[1] == "0" || a.args[1] == "1" || a.args[1] == "2")
 	}
 	return true
+}
+
+// ---------------------------------------------------------------------------------------------
+// SendFile: two directories with a file of the same name and different contents; a configuration is six
+// digits: FS (0 none = absolute path into directory A, 1 os.DirFS(A), 2 os.DirFS(B)), Compress, ByteRange,
+// Download, CacheDuration (0 default, 1 negative, 2 one hour), MaxAge (0, 60, 3600). The second argument
+// of the action says which request header accompanies it: 0 none, 1 `Range: bytes=0-3`, 2
+// `Accept-Encoding: gzip`. App.sendfiles caches {fasthttp FS handler, Cache-Control value} per
+// configuration: a lookup that ignores a field hands a request the handler / header of an earlier one.
+
+var sfDirA, sfDirB string
+
+const sfName = "f.txt"
+
+func sfContent(c byte) []byte { return bytes.Repeat([]byte(strings.Repeat(string(c), 9)+"\n"), 60) }
+
+func setupFiles() {
+	base, err := os.MkdirTemp("", "c05-sendfile-")
+	if err != nil {
+		panic(err)
+	}
+	sfDirA, sfDirB = filepath.Join(base, "a"), filepath.Join(base, "b")
+	old := time.Date(2020, 1, 2, 3, 4, 5, 0, time.UTC)
+	for dir, c := range map[string]byte{sfDirA: 'a', sfDirB: 'b'} {
+		if err := os.MkdirAll(dir, 0o755); err != nil {
+			panic(err)
+		}
+		f := filepath.Join(dir, sfName)
+		if err := os.WriteFile(f, sfContent(c), 0o644); err != nil {
+			panic(err)
+		}
+		_ = os.Chtimes(f, old, old)
+	}
+}
+
+func sendFileConfig(code string) (fiber.SendFile, bool) {
+	var cfg fiber.SendFile
+	if len(code) != 6 {
+		return cfg, false
+	}
+	for i := 0; i < 6; i++ {
+		max := byte('1')
+		if i == 0 || i >= 4 {
+			max = '2'
+		}
+		if code[i] < '0' || code[i] > max {
+			return cfg, false
+		}
+	}
+	switch code[0] {
+	case '1':
+		cfg.FS = os.DirFS(sfDirA)
+	case '2':
+		cfg.FS = os.DirFS(sfDirB)
+	}
+	cfg.Compress, cfg.ByteRange, cfg.Download = code[1] == '1', code[2] == '1', code[3] == '1'
+	cfg.CacheDuration = []time.Duration{0, -time.Second, time.Hour}[code[4]-'0']
+	cfg.MaxAge = []int{0, 60, 3600}[code[5]-'0']
+	return cfg, true
+}
+
+func sendFilePath(code string) string {
+	if code[0] == '0' {
+		return filepath.Join(sfDirA, sfName)
+	}
+	return sfName
 }
 
 func (q request) valid() bool {
@@ -150,7 +225,7 @@ func (q request) valid() bool {
 	} else if q.flash != "" {
 		return false
 	}
-	nob := 0
+	nob, nsf := 0, 0
 	for _, a := range q.script {
 		if !a.valid() {
 			return false
@@ -158,8 +233,11 @@ func (q request) valid() bool {
 		if a.op == "ob" {
 			nob++
 		}
+		if a.op == "sf" {
+			nsf++
+		}
 	}
-	return nob <= 1
+	return nob <= 1 && nsf <= 1
 }
 
 func hx(s string) string { return gen.Hex(s) }
@@ -279,6 +357,15 @@ func (q request) wire(id int) []byte {
 	if q.hasFlash {
 		fmt.Fprintf(&b, "Cookie: sid=s1; %s=%s\r\n", fiber.FlashCookieName, q.flash)
 	}
+	for _, a := range q.script {
+		if a.op == "sf" && a.args[1] == "1" {
+			b.WriteString("Range: bytes=0-3\r\n")
+			break
+		} else if a.op == "sf" && a.args[1] == "2" {
+			b.WriteString("Accept-Encoding: gzip\r\n")
+			break
+		}
+	}
 	if q.method != "GET" {
 		b.WriteString("Content-Length: 0\r\n")
 	}
@@ -381,6 +468,7 @@ func newSite(custom bool) *site {
 func (s *site) handle(c fiber.Ctx) error {
 	id, _ := strconv.Atoi(c.Get("X-Req-Id"))
 	errCode := 0
+	sent := false
 	for _, a := range s.scripts[id] {
 		switch a.op {
 		case "vb":
@@ -409,10 +497,18 @@ func (s *site) handle(c fiber.Ctx) error {
 			errCode, _ = strconv.Atoi(a.args[0])
 		case "ob":
 			s.observe(c)
+		case "sf":
+			cfg, _ := sendFileConfig(a.args[0])
+			if err := c.SendFile(sendFilePath(a.args[0]), cfg); err == nil {
+				sent = true
+			}
 		}
 	}
 	if errCode != 0 {
 		return fiber.NewError(errCode, "e"+strconv.Itoa(errCode))
+	}
+	if sent {
+		return nil // the file is the response
 	}
 	return c.SendString("ok")
 }
@@ -983,9 +1079,18 @@ func (s *site) renderP(resp *response, lport int) string {
 		sort.Strings(ys)
 		return ys
 	}
-	return fmt.Sprintf("st=%d;ct=%s;loc=%s;sc=%s;xh=%s;al=%s;body=%s;ob=%s;params=%s;msgs=%s;old=%s;view=%s;locals=%s;base=%s",
+	body := resp.body
+	if pk("Content-Encoding") == "gzip" {
+		if zr, err := gzip.NewReader(bytes.NewReader(body)); err == nil {
+			if plain, err := io.ReadAll(zr); err == nil {
+				body = plain // the observation is the decoded body + the fact that it was encoded
+			}
+		}
+	}
+	return fmt.Sprintf("st=%d;ct=%s;loc=%s;sc=%s;xh=%s;al=%s;cc=%s;cd=%s;ce=%s;cr=%s;body=%s;ob=%s;params=%s;msgs=%s;old=%s;view=%s;locals=%s;base=%s",
 		resp.status, hx(pk("Content-Type")), hx(pk("Location")), sc, gen.HexList(xh), hx(pk("Allow")),
-		hx(string(resp.body)), seen, gen.HexList(o.params), list(o.msgs), list(sorted(o.old)), view, gen.HexList(o.locals), hx(base))
+		hx(pk("Cache-Control")), hx(pk("Content-Disposition")), hx(pk("Content-Encoding")), hx(pk("Content-Range")),
+		hx(string(body)), seen, gen.HexList(o.params), list(o.msgs), list(sorted(o.old)), view, gen.HexList(o.locals), hx(base))
 }
 
 func emptyPools() {
@@ -1134,6 +1239,10 @@ func genFlash(r *gen.Rand) string {
 	return string(b)
 }
 
+// sendFileCase: set per case; only then do requests call SendFile (keeps the number of leaked fasthttp FS
+// handlers per process small)
+var sendFileCase bool
+
 func genScript(r *gen.Rand, probe bool) []action {
 	var sc []action
 	n := r.Intn(5)
@@ -1158,6 +1267,29 @@ func genScript(r *gen.Rand, probe bool) []action {
 		case 10:
 			sc = append(sc, action{"bq", nil})
 		}
+	}
+	if sendFileCase && r.Chance(1, 2) {
+		// SendFile: configurations cluster around a few base points so that histories often contain a
+		// configuration that differs from the probe's in exactly one field
+		code := []byte(gen.Pick(r, []string{"000000", "000000", "100000", "000001", "010002", "001000"}))
+		for n := r.Intn(3); n > 0; n-- {
+			i := r.Intn(6)
+			max := 2
+			if i >= 1 && i <= 3 {
+				max = 1
+			}
+			code[i] = byte('0' + r.Intn(max+1))
+		}
+		hdr := "0"
+		if code[2] == '1' && r.Chance(2, 3) {
+			hdr = "1"
+		} else if code[1] == '1' && r.Chance(2, 3) {
+			hdr = "2"
+		} else if r.Chance(1, 3) {
+			hdr = strconv.Itoa(1 + r.Intn(2))
+		}
+		pos := r.Intn(len(sc) + 1)
+		sc = append(sc[:pos], append([]action{{"sf", []string{string(code), hdr}}}, sc[pos:]...)...)
 	}
 	if probe {
 		// the probe looks at everything, then (often) redirects / binds so that leftover redirect
@@ -1207,6 +1339,52 @@ func genRequest(r *gen.Rand, probe bool) request {
 	return q
 }
 
+// runChildren re-executes this binary for consecutive ranges of case numbers and copies the children's
+// case lines and distribution counters into w.
+func runChildren(w *gen.Writer, o gen.Opts, chunk int) {
+	self, err := os.Executable()
+	if err != nil {
+		panic(err)
+	}
+	for from := 0; from < o.N; from += chunk {
+		to := from + chunk
+		if to > o.N {
+			to = o.N
+		}
+		tmp := fmt.Sprintf("%s.part%d", o.Out, from)
+		cmd := exec.Command(self, "-seed", strconv.FormatUint(o.Seed, 10), "-n", strconv.Itoa(o.N), "-tier", o.Tier, "-out", tmp)
+		cmd.Env = append(os.Environ(), fmt.Sprintf("C05_CHILD=%d:%d", from, to))
+		cmd.Stderr = os.Stderr
+		if err := cmd.Run(); err != nil {
+			panic(fmt.Sprintf("child %d:%d: %v", from, to, err))
+		}
+		f, err := os.Open(tmp)
+		if err != nil {
+			panic(err)
+		}
+		sc := bufio.NewScanner(f)
+		sc.Buffer(make([]byte, 1<<20), 1<<26)
+		for sc.Scan() {
+			fs := strings.Split(sc.Text(), "\t")
+			switch {
+			case fs[0] == "case" && len(fs) > 2:
+				w.Case(fs[1], fs[2:]...)
+			case fs[0] == "dist" && len(fs) == 2:
+				m := map[string]int{}
+				if json.Unmarshal([]byte(fs[1]), &m) == nil {
+					for k, n := range m {
+						for ; n > 0; n-- {
+							w.Count(k)
+						}
+					}
+				}
+			}
+		}
+		f.Close()
+		os.Remove(tmp)
+	}
+}
+
 func main() {
 	log.SetOutput(io.Discard)
 	runtime.GOMAXPROCS(1)
@@ -1214,6 +1392,8 @@ func main() {
 	o := gen.ParseFlags()
 	w := gen.NewWriter(o.Out)
 	defer w.Close()
+	setupFiles()
+	defer os.RemoveAll(filepath.Dir(sfDirA))
 	if o.Replay != "" {
 		for _, f := range gen.ReplayInputs(o.Replay) {
 			if len(f) < 4 || (f[1] != "0" && f[1] != "1" && f[1] != "2" && f[1] != "3" && f[1] != "4") {
@@ -1241,10 +1421,22 @@ func main() {
 		}
 		return
 	}
+	// Every app that calls SendFile leaves fasthttp FS handlers behind (a cache-cleaning goroutine and
+	// cached open files each, for the life of the process). Generated cases therefore run in child
+	// processes of `chunk` cases; the parent only merges their output.
+	const chunk = 250
+	from, to := 0, o.N
+	if env := os.Getenv("C05_CHILD"); env != "" {
+		fmt.Sscanf(env, "%d:%d", &from, &to)
+	} else if o.N > chunk {
+		runChildren(w, o, chunk)
+		return
+	}
 	root := gen.New(o.Seed)
-	for i := 0; i < o.N; i++ {
+	for i := from; i < to; i++ {
 		r := root.Fork(uint64(i))
 		var hist []request
+		sendFileCase = r.Chance(1, 4)
 		for n := r.Intn(9); n > 0; n-- {
 			hist = append(hist, genRequest(r, false))
 		}
@@ -1257,6 +1449,9 @@ func main() {
 		}
 		w.Count(fmt.Sprintf("hist=%d", len(hist)))
 		w.Count("mode=" + strconv.Itoa(mode))
+		if sendFileCase {
+			w.Count("sendfile-case")
+		}
 		if probe.hasFlash {
 			w.Count("probe-flash")
 		}
